@@ -520,6 +520,7 @@ package xmpp
 //@   requires recvOK(c)
 //@   requires keepaliveQuit != nil && !chanClosed(keepaliveQuit)
 //@   ensures [C12.quit,C18.recv.quit]  count(Close) >= old(count(Close)) + 1 && last(Close) == keepaliveQuit
+//@   ensures [C18.recv.quit.first,C13.recv.quit.first] count(Close) - old(count(Close)) >= 1 && (count(ErrorHandler) > old(count(ErrorHandler)) ==> atlast(Close) < atlast(ErrorHandler)) && ((c.Handler != nil && count(EventHandler) > old(count(EventHandler))) ==> atlast(Close) < atlast(EventHandler)) && (count(Closed) > old(count(Closed)) ==> atlast(Close) < atlast(Closed))
 //@   ensures [C12.recv.noclose] count(Closed) - old(count(Closed)) == count(StreamErrRead) - old(count(StreamErrRead)) && count(StreamErrRead) - old(count(StreamErrRead)) <= 1
 //@   ensures [C13.streamerror.closed] (count(StreamErrRead) > old(count(StreamErrRead))) ==> typeof(last(PacketRead)) == stanza.StreamError && newSpawns() + 1 == newReads() && last(Closed) == c.transport && (c.Handler != nil ==> atlast(Closed) < atlast(EventHandler)) && atlast(Closed) < atlast(ErrorHandler)
 //@   ensures [C05.once]  newSpawns() == newReads() || (newSpawns() + 1 == newReads() && !isStanza(last(PacketRead)))
@@ -1088,9 +1089,10 @@ package xmpp
 //@     invariant count(Ping) > old(count(Ping)) ==> atlast(Ping) > atlast(Selected) || count(Selected) == old(count(Selected))
 //
 //@ func (*xmpp.XMPPTransport).Ping(t) (err)
-//@   requires t != nil && t.conn != nil
+//@   requires t != nil
+//@   ensures [C18.ping.unconnected] t.conn == nil ==> err != nil && count(Write) == old(count(Write))
 //@   emit Ping(iface(t), err == nil)
-//@   ensures [C18.ping.tcp] count(Write) == old(count(Write)) + 1 && last(Write, 0) == t.conn && last(Write, 1) == "\n" && (err == nil) == (last(Write, 2) && last(Write, 3) == 1)
+//@   ensures [C18.ping.tcp] t.conn != nil ==> count(Write) == old(count(Write)) + 1 && last(Write, 0) == t.conn && last(Write, 1) == "\n" && (err == nil) == (last(Write, 2) && last(Write, 3) == 1)
 //@   emits Write
 //@ func (xmpp.WebsocketTransport).Ping(t) (err)
 //@   requires t.wsConn != nil
